@@ -44,6 +44,8 @@ CHECKS = {
          "exploration over arrival orders, faults (rule errors, panicking functions) and pool sizes", "the only wall-clock verdicts are 20 s progress bounds (normal latency < 1 ms)", "4 C17"),
  "C09": ("fault_enumeration", "E2 trace monitor + fault catalog", "runtime monitoring with fault injection by construction: complete fault-kind x construct catalog driven through all entry points in child processes with journals (panic into the caller, process death, hang, nil error after a fault, policy for the healthy rules, healthy follow-up call), plus random ill-typed programs",
          "the catalog part enumerates a finite fault list completely (thorough: x all 45 entry points); the random part explores", "a fault is injected by writing the faulty construct into the rule; hang bound 30 s per case", "4 C09"),
+ "C19": ("exploration", "E6 race harness", "Go race detector (-race build of the worker, halt_on_error=0) over the concurrency scenario families; every WARNING: DATA RACE block is parsed, attributed by innermost non-runtime frame and deduplicated by access-site pair",
+         "sanitizer run over repeated, seed-varied concurrent workloads; silence covers what was executed", "workloads are race-free on the user side by construction; reports wholly inside the ANTLR runtime are out of scope", "4 C19"),
  "C15": ("exploration", "E2 trace monitor", "runtime monitoring: rules sharing local names, readers-before-write must fault and writers must get their own value back, in every model, repeated calls and concurrent duplicates",
          "exploration", "a leak must change a returned value or let a reader succeed to be seen", "4 C15"),
 }
@@ -85,6 +87,7 @@ def main():
             {"name": "compile fuzzer", "path": "harness/cfuzz", "serves_properties": ["C10"], "kind_free_text": "token-level mutation fuzzer, five-entry-point differential driver"},
             {"name": "E3 pool storms", "path": "harness/poolmon", "serves_properties": ["C06","C17","C19"], "kind_free_text": "pool scenarios, injected gate, hook-fed shadow monitor"},
             {"name": "E4 version histories", "path": "harness/poolmon", "serves_properties": ["C07","C16"], "kind_free_text": "version-tagged rules, history checker, management model"},
+            {"name": "E6 race harness", "path": "harness/cmd/vcheck/race.go + harness/families/c19.go", "serves_properties": ["C19"], "kind_free_text": "race-detector build of the worker over all concurrency scenario families, race log classifier"},
             {"name": "algebra histories", "path": "harness/algebra", "serves_properties": ["C08"], "kind_free_text": "model-based operation histories on a RuleBuilder"},
         ],
         "checks": checks,
